@@ -29,6 +29,7 @@ def check(run, model, tier):
     run.floor('buffer obligations in init', len(res), 4)
     run.rule('HSM-CONTENT.O4-content', 'an ancestor of the init target stored into slot i of the path buffer is its i-th ancestor (ghost depth d == i)')
     run.rule('HSM-CONTENT.O5-content', 'ENTRY is sent only through slots at or below the content frontier K')
+    run.rule('HSM-CONTENT.O5-first', 'the first ENTRY after start / after an initial transition goes to the state just below the outermost active state of that leg')
     run.rule('HSM-CONTENT.O9-init', 'INIT is sent to the current target (ghost depth 0), the state whose entry was the last one made')
     run.rule('HSM-CONTENT.O7-noraise', 'no raise statement of init() is reachable by a chart that follows the handler protocol (start state below top, init targets inside the state that takes them)')
     # the cursor is the start state when init() is called: that is what ORDER.start_at establishes
@@ -36,6 +37,7 @@ def check(run, model, tier):
     run.floor('content store obligations in init', cc['O4-content'], 2)
     run.floor('content entry obligations in init', cc['O5-content'], 1)
     run.floor('INIT sites in init', cc['O9-init'], 1)
+    run.floor('first entries after start / after an initial transition in init', cc['O5-first'], 1)
     run.floor('raise statements in init proved unreachable for protocol-following charts', cc['O7-noraise'], 1)
     n = hsmrules.entry_loops(run, model, 'init')
     run.floor('entry loops in init', n, 1)
